@@ -36,6 +36,9 @@ pub enum Flavour {
     BufferedNotATty,
     /// member of a hidden MultiProgress, removed, after which the MultiProgress is given a visible target
     RemovedFromHiddenMultiThenShown,
+    /// `ProgressBar::hidden()` as it comes (no with_finish, length set afterwards) against a visible bar that
+    /// was not configured either: the defaults of a hidden bar are those of a visible one
+    HiddenConstructor,
 }
 
 #[derive(Clone, Debug, PartialEq)]
@@ -209,7 +212,13 @@ impl Hist for C06 {
         let err0 = stderr_len();
         // visible twin
         let twin_spy = Spy::new(40, 30, false);
-        let twin = ProgressBar::with_draw_target(Some(5), ProgressDrawTarget::term_like(twin_spy.boxed())).with_style(style(2)).with_finish(self.fin.real());
+        let twin = if self.flavour == Flavour::HiddenConstructor {
+            let t = ProgressBar::with_draw_target(None, ProgressDrawTarget::term_like(twin_spy.boxed())).with_style(style(2));
+            t.set_length(5);
+            t
+        } else {
+            ProgressBar::with_draw_target(Some(5), ProgressDrawTarget::term_like(twin_spy.boxed())).with_style(style(2)).with_finish(self.fin.real())
+        };
         // hidden subject
         let spy = Spy::new(40, 30, false);
         let mut mp: Option<MultiProgress> = None;
@@ -220,6 +229,11 @@ impl Hist for C06 {
         let mk = || ProgressBar::with_draw_target(Some(5), ProgressDrawTarget::hidden()).with_style(style(2)).with_finish(self.fin.real());
         let subject = match self.flavour {
             Flavour::HiddenTarget => mk(),
+            Flavour::HiddenConstructor => {
+                let b = ProgressBar::hidden().with_style(style(2));
+                b.set_length(5);
+                b
+            }
             Flavour::NotATty => ProgressBar::new(5).with_style(style(2)).with_finish(self.fin.real()),
             Flavour::NotATtyHz => ProgressBar::with_draw_target(Some(5), ProgressDrawTarget::stderr_with_hz(255)).with_style(style(2)).with_finish(self.fin.real()),
             Flavour::HiddenMulti => {
@@ -391,9 +405,9 @@ impl Hist for C06 {
 
 fn configs(tier: Tier) -> Vec<(C06, usize)> {
     let mut v = Vec::new();
-    let flavours = [Flavour::HiddenTarget, Flavour::NotATty, Flavour::HiddenMulti, Flavour::RemovedFromMulti, Flavour::NotATtyHz, Flavour::RemovedFromHiddenMultiThenShown, Flavour::NotATtyMulti, Flavour::ReadWritePair, Flavour::StdoutNotATtyStderrTty, Flavour::MovedToHiddenMulti, Flavour::StderrBecomesTty, Flavour::BufferedNotATty];
+    let flavours = [Flavour::HiddenTarget, Flavour::NotATty, Flavour::HiddenMulti, Flavour::RemovedFromMulti, Flavour::NotATtyHz, Flavour::RemovedFromHiddenMultiThenShown, Flavour::NotATtyMulti, Flavour::ReadWritePair, Flavour::StdoutNotATtyStderrTty, Flavour::MovedToHiddenMulti, Flavour::StderrBecomesTty, Flavour::BufferedNotATty, Flavour::HiddenConstructor];
     for (k, &flavour) in flavours.iter().enumerate() {
-        let fin = [Fin::AndLeave, Fin::WithMessage, Fin::AndClear, Fin::AbandonWithMessage, Fin::Abandon, Fin::AndLeave, Fin::WithMessage, Fin::AndClear, Fin::AndLeave, Fin::Abandon, Fin::WithMessage, Fin::AndLeave][k];
+        let fin = [Fin::AndLeave, Fin::WithMessage, Fin::AndClear, Fin::AbandonWithMessage, Fin::Abandon, Fin::AndLeave, Fin::WithMessage, Fin::AndClear, Fin::AndLeave, Fin::Abandon, Fin::WithMessage, Fin::AndLeave, Fin::AndClear][k];
         match tier {
             Tier::Quick => {
                 v.push((C06 { flavour, fin, reduced: false }, if flavour == Flavour::RemovedFromMulti { 3 } else { 2 }));
